@@ -522,6 +522,29 @@ func faultTrees() []faultTree {
 	// a component that only the layout refers to (on a path that is not taken)
 	lay3 := append(append([]model.Stmt{}, lay1...), model.If{Conds: []model.Expr{model.Lit{V: model.Bool(false)}}, Bodies: [][]model.Stmt{{model.Component{Name: "~hdr"}}}})
 	out = append(out, mk(lay3, comp1, nil, true))
+	// other names: pages that sort before and after the files they use, components and layouts outside the usual directories
+	{
+		ft := faultTree{files: map[string]string{}, spans: map[string][]model.Span{}, role: map[string]string{}, usedBy: map[string]string{}}
+		put := func(name, role string, stmts []model.Stmt) {
+			marked := model.PrintStmts(stmts, model.Style{Layout: model.SpaceLayout, Marks: true})
+			src, spans := model.StripMarks(marked)
+			ft.files[name] = src
+			ft.spans[name] = spans
+			ft.role[name] = role
+		}
+		box := model.Component{Name: "widgets/box", Args: &model.ObjLit{Keys: []string{"t"}, Vals: []model.Expr{model.StrLit{S: "hello"}}},
+			Slots: []model.SlotBody{{Name: "", Body: []model.Stmt{model.Text{S: "slot body"}}}, {Name: "foot", Body: []model.Stmt{model.Text{S: "foot body"}}}}}
+		put("base/frame.tw", "layout", lay1)
+		put("widgets/box.tw", "component", []model.Stmt{model.Text{S: "<box>"}, model.Print{E: model.Var{Name: "t"}}, model.Text{S: ":"}, model.SlotRef{Name: ""}, model.Text{S: "|"}, model.SlotRef{Name: "foot"}, model.Text{S: "</box>"}})
+		put("ui/badge.tw", "component", []model.Stmt{model.Text{S: "<badge>"}, model.If{Conds: []model.Expr{model.Lit{V: model.Bool(true)}}, Bodies: [][]model.Stmt{{model.Text{S: "b"}}}}, model.Text{S: "</badge>"}})
+		put("a.tw", "page", []model.Stmt{model.Use{Name: "base/frame"}, model.Insert{Name: "title", E: model.StrLit{S: "A"}}, model.Insert{Name: "body", Block: []model.Stmt{model.Text{S: "<main>"}, box, model.Component{Name: "ui/badge"}, model.Text{S: "</main>"}}}})
+		put("blog/post.tw", "page", []model.Stmt{model.Text{S: "post "}, box, model.Text{S: " end"}})
+		put("zz/last.tw", "page", []model.Stmt{model.Text{S: "last "}, box, model.Component{Name: "ui/badge"}, model.Text{S: " end"}})
+		ft.usedBy["base/frame.tw"] = "a.tw"
+		ft.usedBy["widgets/box.tw"] = "a.tw"
+		ft.usedBy["ui/badge.tw"] = "a.tw"
+		out = append(out, ft)
+	}
 	return out
 }
 
